@@ -77,7 +77,11 @@ func TestC03Confinement(t *testing.T) {
 		var ops []Op
 		var opClass []string
 		for i, n := 0, rapid.IntRange(1, 10).Draw(t, "n"); i < n; i++ {
-			cls := rapid.SampledFrom(append(classes, "valid", "valid")).Draw(t, "class")
+			// half of the operations use valid names (own-files-only is judged on those), half invalid ones
+			cls := "valid"
+			if rapid.Bool().Draw(t, "invalid") {
+				cls = rapid.SampledFrom(classes).Draw(t, "class")
+			}
 			name := ""
 			if cls == "valid" {
 				name = rapid.SampledFrom([]string{"alice", "alice", "root", "newuser", "a.b", "alice.b", "mallory", "eve"}).Draw(t, "vname")
